@@ -193,6 +193,18 @@ CHECKS = {
     {"pkg": "./payload", "test": "TestC13", "shards": {"quick": 16, "thorough": 16}},
   ],
  },
+ "C15": {
+  "engine": "E-HIST",
+  "rule": "exhaustive enumeration of (configured sources, configured keys, presented source, presented key, header vs query, route, method) against the real server wired by serverApp.init (real standardValidator and handleValidate), compared with a reference predicate, with before/after listings and probe answers for refused requests; plus enumeration of every file-system step of the real Stage.Recover as the moment at which requests arrive; distinct = distinct requests / recovery steps",
+  "level": "Every request of the stated space is sent to the real server over the in-memory network; every file-system step of recovery is used as the arrival moment of a probe of each route.",
+  "note": "Bounds: see coverage.parts[].bound. Arrival moments inside recovery are its file-system mutation points (lock-level interleavings are not enumerated by this part).",
+  "technique": "exhaustive input enumeration and fault-point enumeration on the implementation, reference-predicate and differential (before/after) oracles",
+  "assumptions": ["in-memory network below net/http", "virtual time"],
+  "parts": [
+    {"pkg": "./main", "test": "TestC15Auth", "shards": {"quick": 9, "thorough": 9}},
+    {"pkg": "./main", "test": "TestC15Recovery", "shards": {"quick": 7, "thorough": 7}},
+  ],
+ },
 }
 
 NOT_APPLICABLE = {}
